@@ -204,7 +204,7 @@ CLAIMED = {
         "Tie/oracle: result shapes and every block of every aggregate on both cube types are compared on the real code with "
         "the same aggregate over the 1-D slices; slices1d of the real code vs the model.",
         "Trusted: as C03/C06; NumPy indexing of region[flattened_slice] is modelled as label association.",
-        "Lean 4 proof (slices1d by induction over axes; product membership) + block-wise comparison on the real code",
+        "Lean 4 proof (slices1d by induction over axes; product membership) + block-wise comparison on the real code + slices1d regenerated from the source (translator) and proved to be the modelled slice iteration",
         "DESIGN.md §5 C13"),
     "C17": (
         "Lean 4: a may-alias analysis over alias/fresh/write programs is proved sound w.r.t. a heap semantics (a program that "
